@@ -94,6 +94,7 @@ def run(chk, repo, tier):
     run_o12_o13(chk, repo)
     run_o14(chk, repo)
     run_o15(chk, repo)
+    run_o16(chk, repo)
     from rules.C10 import run_d1
     run_d1(chk, repo, chk.rule('D1', 'symbol accessors (free_symbols, subs) cover every expression field through the matching '
                                      'accessor', floor=10))
@@ -894,3 +895,63 @@ def _o15_one(chk, O15, sm, f, c, e, INEXACT):
                               'the flow given to the builder, times the amount of the source compartment, is not the term it was '
                               'recovered from', line=c.lineno,
                               witness='any two-compartment system: eqs(to_compartmental_system(eqs)) != eqs')
+
+
+def run_o16(chk, repo):
+    """O16: last pass of to_compartmental_system: a leftover term of a compartment's equation becomes a zero-order input only
+    when it is PROVABLY positive (the tri-state _is_positive(term) answered True); every other term - negative or of
+    undecidable sign such as -CL*(1 - FM)/V*A - is elimination and goes to the output flow. Structural clause: the accumulator
+    that reaches set_input is incremented only in the branch that _is_positive(<the term itself>) guards positively."""
+    O16 = chk.rule('O16', 'to_compartmental_system: only terms proved positive become zero-order input; undecided terms go to '
+                          'the output flow', floor=1)
+    m = repo.module('pharmpy.model.statements')
+    f = m.functions.get('to_compartmental_system')
+    if f is None:
+        raise AnalysisError('O16: to_compartmental_system not found')
+    inputs = {a.id for c in ast.walk(f.node) if isinstance(c, ast.Call) and isinstance(c.func, ast.Attribute)
+              and c.func.attr == 'set_input' and len(c.args) == 2 for a in ast.walk(c.args[1]) if isinstance(a, ast.Name)}
+    if not inputs:
+        raise AnalysisError('O16: no set_input(<compartment>, <accumulator>) call in to_compartmental_system')
+
+    def incremented(stmts):
+        out = set()
+        for s in stmts:
+            for a in ast.walk(s):
+                if isinstance(a, ast.AugAssign) and isinstance(a.target, ast.Name):
+                    out.add((a.target.id, unparse(a.value)))
+                elif isinstance(a, ast.Assign) and len(a.targets) == 1 and isinstance(a.targets[0], ast.Name) \
+                        and isinstance(a.value, ast.BinOp) and isinstance(a.value.op, ast.Add) \
+                        and isinstance(a.value.left, ast.Name) and a.value.left.id == a.targets[0].id:
+                    out.add((a.targets[0].id, unparse(a.value.right)))
+        return out
+    n = 0
+    for I in ast.walk(f.node):
+        if not isinstance(I, ast.If):
+            continue
+        t, neg = I.test, False
+        while isinstance(t, ast.UnaryOp) and isinstance(t.op, ast.Not):
+            t, neg = t.operand, not neg
+        if isinstance(t, ast.Compare) and len(t.ops) == 1 and isinstance(t.ops[0], (ast.Is, ast.Eq)) \
+                and isinstance(t.comparators[0], ast.Constant) and t.comparators[0].value is True:
+            t = t.left
+        if not (isinstance(t, ast.Call) and (dotted(t.func) or '').split('.')[-1] == '_is_positive' and len(t.args) == 1):
+            continue
+        pos_branch, other = (I.orelse, I.body) if neg else (I.body, I.orelse)
+        inc_pos, inc_other = incremented(pos_branch), incremented(other)
+        if not any(v in inputs for v, _ in inc_pos | inc_other):
+            continue
+        n += 1
+        arg = unparse(t.args[0])
+        bad = [(v, term) for v, term in inc_other if v in inputs]
+        bad += [(v, term) for v, term in inc_pos if v in inputs and term != arg]
+        ok = not bad
+        chk.instance(O16, f'to_compartmental_system: if {unparse(I.test)[:40]}: input accumulator only under the positive proof of '
+                          f'the added term: {ok}')
+        if not ok:
+            chk.violation(O16, m.rel, f.qualname, f'if {unparse(I.test)[:50]}: {bad[0][0]} += {bad[0][1]}',
+                          f'`{bad[0][0]}` (passed to set_input) receives terms that were not proved positive: a term of '
+                          f'undecidable sign becomes a zero-order input instead of the output flow', line=I.lineno,
+                          witness='one-compartment system with output rate CL*(1 - FM)/V: to_compartmental_system(eqs) has no '
+                                  'output flow and an invented input -CL*(1-FM)*A/V')
+    if n == 0:
+        raise AnalysisError('O16: no _is_positive(term) branch that feeds the set_input accumulator found')
